@@ -85,9 +85,13 @@ def gen_case(rng, kinds, nit, array, max_n=3, n_resp=None, measures=None, vc=Non
         ncell *= s
     ncell *= nit
     holes = {}
+    null_holes = {}
     for m in measures:
         if ncell and rng.random() < 0.5:
             holes[m] = sorted(set(rng.randrange(ncell) for _ in range(rng.randint(1, 2))))
+        # an unavailable value can also be carried as JSON null (Python None)
+        if ncell and rng.random() < 0.5:
+            null_holes[m] = sorted(set(rng.randrange(ncell) for _ in range(rng.randint(1, 2))))
     return {
         "vars": [v.to_json() for v in vars_],
         "n_items": nit if array else None,
@@ -97,6 +101,9 @@ def gen_case(rng, kinds, nit, array, max_n=3, n_resp=None, measures=None, vc=Non
         "vc": vc,
         "count_measure": rng.random() < 0.8,
         "holes": holes,
+        "null_holes": null_holes,
+        "null_for_nan": rng.random() < 0.4,
+        "json_text": rng.random() < 0.3,
         "median_nested": rng.random() < 0.3,
         "missing": rng.choice([0, 0, 3]),
         "n_missing": {"mean": rng.choice([None, 0, 2]), "median": rng.choice([None, 1]),
@@ -171,10 +178,12 @@ def payload(case):
         data = []
         for pos, key in enumerate(order):
             v = cs[key][m]
-            if pos in case["holes"].get(m, []):
+            if pos in case.get("null_holes", {}).get(m, []):
+                data.append(("null", None))
+            elif pos in case["holes"].get(m, []):
                 data.append(("?", -1))
             elif v is None:
-                data.append(("?", -8))
+                data.append(("null", None) if case.get("null_for_nan") else ("?", -8))
             else:
                 data.append(v)
         out[m] = data
@@ -183,6 +192,12 @@ def payload(case):
     if case["vc"] in ("w", "uw"):
         out["valid_count_weighted"] = [cs[key]["valid_count_weighted"] for key in order]
     return out
+
+
+def _json_cell(x):
+    if isinstance(x, tuple):
+        return None if x[0] == "null" else {"?": x[1]}
+    return _num(x)
 
 
 def _num(x):
@@ -227,7 +242,7 @@ def response(case):
     for name in list(case["measures"]) + ["valid_count_unweighted", "valid_count_weighted"]:
         if name not in pl:
             continue
-        data = [{"?": x[1]} if isinstance(x, tuple) else _num(x) for x in pl[name]]
+        data = [_json_cell(x) for x in pl[name]]
         if name == "median" and case.get("median_nested") and nit > 1 and data:
             data = [data[i:i + nit] for i in range(0, len(data), nit)]
         entry = {"data": data, "metadata": copy.deepcopy(measure_metadata(case))}
@@ -243,7 +258,7 @@ def response(case):
 
 
 def _lean_cells(data):
-    return [{"?": x[1]} if isinstance(x, tuple) else gen.frac_str(x) for x in data]
+    return [(None if x[0] == "null" else {"?": x[1]}) if isinstance(x, tuple) else gen.frac_str(x) for x in data]
 
 
 def lean_payload(case):
@@ -299,6 +314,7 @@ def describe(case):
     return {"kinds": apparent_kinds(case), "n_items": case["n_items"], "raw_group_shape": gen.raw_shape(vars_),
             "n_respondents": len(survey), "weighted": case["weighted"], "measures": case["measures"],
             "valid_counts": case["vc"], "count_measure": case["count_measure"], "holes": case["holes"],
+            "null_holes": case.get("null_holes"), "json_text": case.get("json_text"),
             "missing_flags": [v.cat_missing for v in vars_], "first_respondents": case["survey"][:3]}
 
 
@@ -314,10 +330,13 @@ def shrink_candidates(case):
         yield dict(case, survey=[["1", a, v] for _, a, v in sv])
     if case["holes"]:
         yield dict(case, holes={})
+    if case.get("null_holes"):
+        yield dict(case, null_holes={})
     if len(case["measures"]) > 1:
         for m in case["measures"]:
             yield dict(case, measures=[x for x in case["measures"] if x != m],
-                       holes={k: v for k, v in case["holes"].items() if k != m})
+                       holes={k: v for k, v in case["holes"].items() if k != m},
+                       null_holes={k: v for k, v in case.get("null_holes", {}).items() if k != m})
 
 
 # ---------------------------------------------------------------------------------------
@@ -364,7 +383,11 @@ def make_cube(case):
     kw = {}
     if case.get("min_base"):
         kw["mask_size"] = case["min_base"]
-    return Cube(response(case), **kw)
+    resp = response(case)
+    if case.get("json_text"):
+        import json
+        resp = json.dumps(resp)
+    return Cube(resp, **kw)
 
 
 def weighted_source(case):
